@@ -878,7 +878,18 @@ def flush_model(ctx, model_q):
 def run_wsgi_cases(ctx, cases, compare=True):
     model_q = []
     for case in cases:
-        obs = run_wsgi(case)
+        try:
+            obs = run_wsgi(case)
+        except common.HarnessError:
+            raise
+        except Exception as e:
+            # an exception escaping the WSGI callable (the trapper should make that impossible)
+            ctx.case(case, nontrivial=True, key=(case['sink'], case['payload'], case['proto'], 'raised'))
+            ctx.count('wsgi_raised:%s' % type(e).__name__)
+            if compare and len(ctx.disagreements) < 50:
+                ctx.disagree(case, 'raised %s: %s' % (type(e).__name__, str(e)[:200]), 'a response',
+                             'the WSGI call raised instead of answering')
+            continue
         p = case['payload']
         ctx.case(case, nontrivial=interesting(p), key=(case['sink'], p, case['proto'], case.get('payload2')))
         ctx.count('proto:' + case['proto'])
@@ -1230,8 +1241,8 @@ def run(ctx):
            for pr in ('HTTP/1.0', 'HTTP/1.1')]
     run_wsgi_cases(ctx, sur)
     if ctx.quick():
-        run_wsgi_cases(ctx, [gen_case(ctx.rng) for _ in range(6000)])
-        run_unit_cases(ctx, gen_unit_cases(ctx.rng, 6000))
+        run_wsgi_cases(ctx, [gen_case(ctx.rng) for _ in range(8000)])
+        run_unit_cases(ctx, gen_unit_cases(ctx.rng, 8000))
     else:
         _WORKER_LEAN[0] = ctx.lean
         procs = min(16, os.cpu_count() or 4)
@@ -1261,7 +1272,7 @@ def run(ctx):
 
 def search(ctx, around=None):
     """Deeper oracle-only hunt (called when the proof or the correspondence broke)."""
-    if around is not None:
+    if around is not None and around.get('kind') in ('unit', 'wsgi'):
         # neighbourhood of the disagreeing case: same sink/unit, payload variations
         p = around.get('payload', '')
         neigh = [p[:i] + s + p[i:] for s in SPECIALS[:40] for i in (0, len(p))] + [p[i:j] for i in range(len(p))
